@@ -79,6 +79,38 @@ def generate():
     out.append("Definition send_is_single_write : bool := %s.%s" % (
         astlib.coq_bool(bool(sw)), "" if why_sw is None else "  (* shape not recognised: %s *)" % why_sw))
 
+    def ids():
+        m = astlib.module("klongpy/sys_fn_ipc.py")
+        nc = astlib.find_class(m, "NetworkClient")
+        lis = astlib.find_func(nc, "_listen")
+        # msg_id, msg = await stream_recv_msg(self.reader)
+        recv_ok = False
+        for n in ast.walk(lis):
+            if isinstance(n, ast.Assign) and isinstance(n.value, ast.Await) and isinstance(n.value.value, ast.Call) \
+                    and getattr(n.value.value.func, "id", None) == "stream_recv_msg":
+                t = n.targets[0]
+                recv_ok = isinstance(t, ast.Tuple) and [getattr(e, "id", None) for e in t.elts] == ["msg_id", "msg"]
+        sends = astlib.calls_in(lis, "stream_send_msg")
+        reply_ok = recv_ok and len(sends) >= 1 and all(len(c.args) == 3 and getattr(c.args[1], "id", None) == "msg_id" for c in sends)
+        # no re-assignment of msg_id inside _listen
+        stores = [n for n in ast.walk(lis) if isinstance(n, ast.Name) and n.id == "msg_id" and isinstance(n.ctx, ast.Store)]
+        reply_ok = reply_ok and len(stores) == 1
+        # matched by id: `if msg_id in self.pending_responses:` ... `.pop(msg_id)`
+        pops = [c for c in astlib.calls_in(lis, "pop") if len(c.args) == 1 and getattr(c.args[0], "id", None) == "msg_id"]
+        reply_ok = reply_ok and len(pops) == 1
+        call = astlib.find_func(nc, "call")
+        assigns = [n for n in ast.walk(call) if isinstance(n, ast.Assign) and len(n.targets) == 1]
+        uu = [n for n in assigns if getattr(n.targets[0], "id", None) == "msg_id" and isinstance(n.value, ast.Call)
+              and ast.unparse(n.value.func) == "uuid.uuid4"]
+        reg = [n for n in assigns if isinstance(n.targets[0], ast.Subscript) and ast.unparse(n.targets[0]) == "self.pending_responses[msg_id]"]
+        csends = astlib.calls_in(call, "stream_send_msg")
+        call_ok = len(uu) == 1 and len(reg) == 1 and len(csends) == 1 and getattr(csends[0].args[1], "id", None) == "msg_id" \
+            and len([n for n in ast.walk(call) if isinstance(n, ast.Name) and n.id == "msg_id" and isinstance(n.ctx, ast.Store)]) == 1
+        return reply_ok, call_ok
+    idf, why_id = astlib.try_flag(ids)
+    out.append("Definition reply_uses_request_id : bool := %s.%s" % (astlib.coq_bool(bool(idf and idf[0])), "" if why_id is None else "  (* %s *)" % why_id))
+    out.append("Definition call_registers_and_sends_one_id : bool := %s." % astlib.coq_bool(bool(idf and idf[1])))
+
     def framing():
         m = astlib.module("klongpy/sys_fn_ipc.py")
         enc = astlib.find_func(m, "encode_message")
@@ -352,7 +384,7 @@ from klongpy.core import KGSym, KLONG_UNDEFINED
 from harness.canon import canon
 from harness.common import sx
 
-seed = int(sys.argv[1]); n_ops = int(sys.argv[2]); port = int(sys.argv[3])
+seed = int(sys.argv[1]); n_ops = int(sys.argv[2]); port = int(sys.argv[3]); mode = sys.argv[4] if len(sys.argv) > 4 else 'tcp'
 rng = random.Random(seed)
 
 server, sloops = create_repl()
@@ -361,17 +393,64 @@ twin = KlongInterpreter()
 
 def on_loop(k, loops, text):
     fut = asyncio.run_coroutine_threadsafe(_eval(k, text), loops[3])
-    return fut.result(30)
+    return fut.result(20)
 async def _eval(k, text):
     return k(text)
 
 setup = ['sq::{x*x}', 'add::{x+y}', 'tri::{x,y,z}', 'nil::{42}', 'd:::{[1 2] ["a" "b"]}', 'v::[1 2 3]', 'und::{:{[1 2]}?x}', 'idf::{x}', 'lu::{[1],:{[1 2]}?x}']
-on_loop(server, sloops, '.srv(%%d)' %% port)
+if mode == 'tcp':
+    on_loop(server, sloops, '.srv(%%d)' %% port)
 for s in setup:
     on_loop(server, sloops, s); twin(s)
 for nm0 in ['va', 'vb', 'vc']:
     on_loop(server, sloops, nm0 + '::0'); twin(nm0 + '::0')
+# ---- 'pipe' mode: the real client and the real server-side connection handler joined by an in-memory
+# byte pipe that cuts every write into seeded fragments (biased to header boundaries) fed to the peer's
+# real asyncio.StreamReader one by one: the session of the Coq theorem C13_session_equals_local
+from klongpy.sys_fn_ipc import (NetworkClient, NetworkClientDictHandle, ReaderWriterConnectionProvider, TcpServerConnectionHandler)
+frag_rng = random.Random(seed * 7919 + 13)
+pipe_stats = {"writes": 0, "chunks": 0, "max_chunks": 0}
+class PipeWriter:
+    def __init__(self, peer_loop, peer_reader):
+        self.peer_loop = peer_loop; self.peer_reader = peer_reader; self.closing = False
+    def write(self, data):
+        data = bytes(data); n = len(data)
+        ncuts = frag_rng.choice([0, 0, 1, 2, 3, 5, 9])
+        hot = [1, 15, 16, 17, 19, 20, 21, n - 1]
+        cuts = sorted(min(max(frag_rng.choice(hot) if frag_rng.random() < 0.6 else frag_rng.randint(0, n), 0), n) for _ in range(ncuts))
+        pieces = [data[a:b] for a, b in zip([0] + cuts, cuts + [n])]
+        pipe_stats["writes"] += 1; pipe_stats["chunks"] += len(pieces); pipe_stats["max_chunks"] = max(pipe_stats["max_chunks"], len(pieces))
+        for pc in pieces:
+            if pc:
+                self.peer_loop.call_soon_threadsafe(self.peer_reader.feed_data, pc)
+    async def drain(self):
+        await asyncio.sleep(0)
+    def close(self):
+        if not self.closing:
+            self.closing = True
+            self.peer_loop.call_soon_threadsafe(self.peer_reader.feed_eof)
+    def is_closing(self):
+        return self.closing
+    async def wait_closed(self):
+        return None
+    def get_extra_info(self, name, default=None):
+        return ("127.0.0.1", 1) if name == "peername" else default
+keep_alive = []
+def pipe_connect():
+    s_io, s_kl = sloops[0], sloops[3]; c_io, c_kl = cloops[0], cloops[3]
+    s_reader = asyncio.StreamReader(loop=s_io); c_reader = asyncio.StreamReader(loop=c_io)
+    s_writer = PipeWriter(c_io, c_reader); c_writer = PipeWriter(s_io, s_reader)
+    handler = TcpServerConnectionHandler(s_io, s_kl, server)
+    fut = asyncio.run_coroutine_threadsafe(handler.handle_client(s_reader, s_writer), s_io)
+    keep_alive.append((fut, handler))
+    nc = NetworkClient.create_from_conn_provider(c_io, c_kl, client, ReaderWriterConnectionProvider(c_reader, c_writer, "pipe", 1)).run_client()
+    keep_alive.append(nc)
+    client['cli'] = nc
+    client['dcli'] = NetworkClientDictHandle(nc)
 def connect():
+    if mode == 'pipe':
+        pipe_connect()
+        return
     on_loop(client, cloops, 'cli::.cli(%%d)' %% port)
     on_loop(client, cloops, 'dcli::.clid(%%d)' %% port)
 connect()
@@ -405,10 +484,13 @@ def rcall(fname, *lits_):
     client['args'] = arr
     return on_loop(client, cloops, 'cli(args)')
 
+hung = []
 def safe(f):
     try:
         return f()
     except Exception as e:
+        if type(e).__name__ in ("TimeoutError", "CancelledError"):
+            hung.append(1)          # a call that does not come back: stop after recording it (each would cost the full deadline)
         return ("EXC", type(e).__name__)
 
 # deterministic prelude: values that are ==/hash-equal in Python but of different Klong kinds, through every
@@ -425,6 +507,8 @@ for opi in range(n_ops):
 for u_ in range(6):
     plan.insert(0, ('sym', None))
 for form, fixed_lit in plan:
+    if hung:
+        break
     lit = rng.choice(lits); lit2 = rng.choice(lits); nm = rng.choice(names)
     if fixed_lit is not None:
         lit = fixed_lit
@@ -493,19 +577,20 @@ for form, fixed_lit in plan:
         record(form, ':_1%%0', r, l)
         r = safe(lambda: on_loop(client, cloops, ':_(cli(:lu,,9)@1)')); l = safe(lambda: twin(':_(lu(9)@1)'))
         record(form, ':_ nested', r, l)
+print("PIPESTATS " + json.dumps(pipe_stats))
 print("RESULTS " + json.dumps(results))
 sys.stdout.flush()
 os._exit(0)
 '''
 
 
-def check_live(chk, rng):
-    n_ops = 150 if chk.tier == "quick" else 1500
+def check_live(chk, rng, mode="tcp"):
+    n_ops = (150 if chk.tier == "quick" else 1500) if mode == "tcp" else (120 if chk.tier == "quick" else 1200)
     port = 20000 + (os.getpid() * 7 + rng.randint(0, 999)) % 20000
     script = LIVE_SCRIPT % {"verif": VERIF}
     env = dict(os.environ, PYTHONPATH=REPO + ":" + VERIF, PYTHONHASHSEED="0")
     for attempt in range(3):
-        p = subprocess.run([PY, "-W", "ignore", "-c", script, str(chk.seed + 17), str(n_ops), str(port + attempt * 101)],
+        p = subprocess.run([PY, "-W", "ignore", "-c", script, str(chk.seed + 17), str(n_ops), str(port + attempt * 101), mode],
                            stdout=subprocess.PIPE, stderr=subprocess.PIPE, env=env, timeout=600)
         lines = [l for l in p.stdout.decode().split("\n") if l.startswith("RESULTS ")]
         if lines:
@@ -513,6 +598,10 @@ def check_live(chk, rng):
     if not lines:
         raise RuntimeError("live IPC run produced no results: " + p.stderr.decode()[-1500:])
     results = json.loads(lines[0][8:])
+    for l in p.stdout.decode().split("\n"):
+        if l.startswith("PIPESTATS ") and mode == "pipe":
+            ps = json.loads(l[10:])
+            chk.count("pipe_writes", ps["writes"]); chk.count("pipe_chunks", ps["chunks"])
     # model: transport of the local (server-side) canonical value
     reqs = []
     for r in results:
@@ -522,7 +611,7 @@ def check_live(chk, rng):
     seen = set()
     for r, t in zip(results, trans):
         chk.count("evaluations")
-        chk.count("live_" + r["form"])
+        chk.count(("live_" if mode == "tcp" else "pipe_") + r["form"])
         if (r["form"], r["text"]) not in seen:
             seen.add((r["form"], r["text"]))
             chk.count("distinct_nontrivial")
@@ -534,7 +623,7 @@ def check_live(chk, rng):
             continue
         if rem != loc:
             if bad_prop is None:
-                bad_prop = {"kind": "live", "form": r["form"], "text": r["text"], "remote": rem, "server_local": loc}
+                bad_prop = {"kind": "live" if mode == "tcp" else "live-fragmenting-pipe", "form": r["form"], "text": r["text"], "remote": rem, "server_local": loc}
             continue
         if loc.startswith("(") and "(f " not in loc and "(other" not in loc and "(none" not in loc:
             if sx(t) != rem and bad_corr is None:
@@ -556,12 +645,13 @@ def run(tier, replay=None):
         proof["broken"] = hits[0]
     bad_prop_f, bad_corr_f = check_framing(chk, rng)
     bad_prop_l, bad_corr_l = check_live(chk, rng)
+    bad_prop_p, bad_corr_p = check_live(chk, rng, mode="pipe")
     bad_prop_s, bad_corr_s = check_senders(chk, rng)
-    for bp in (bad_prop_f, bad_prop_l, bad_prop_s):
+    for bp in (bad_prop_f, bad_prop_l, bad_prop_p, bad_prop_s):
         if bp is not None:
             chk.violation("remote/framing behaviour differs from the property's oracle on the implementation: %s" % bp["kind"], bp)
     if not chk.violations:
-        for bc in (bad_corr_f, bad_corr_l, bad_corr_s):
+        for bc in (bad_corr_f, bad_corr_l, bad_corr_p, bad_corr_s):
             if bc is not None:
                 chk.violation("correspondence between klongpy and the Coq model broke (%s); no failing input of the property found in %d cases"
                               % (bc["kind"], chk.counters.get("evaluations", 0)), {"broken": "correspondence C13/Model.v", "detail": bc}, no_input=True)
